@@ -88,6 +88,9 @@ func c12Name(n int) string {
 	for i := range b {
 		b[i] = byte(i*31 + 0x61 + i/200)
 	}
+	if n == 1 {
+		b[0] = 0xe9 // one byte that is not ASCII
+	}
 	if n > 2 {
 		b[1], b[2] = 0xff, 0x00 // arbitrary bytes
 	}
@@ -599,6 +602,7 @@ func c12Run(c *mc.Ctx) {
 		{Kind: "exception", S: [3]string{"boom"}, I: 6},
 		{Kind: "exception", S: [3]string{""}, I: -1},
 		{Kind: "exception", S: [3]string{""}, I: 999},
+		{Kind: "exception", S: [3]string{"\xff"}, I: 262},
 		{Kind: "exception", S: [3]string{string(c01Str(5000))}, I: 0x01020304},
 		// the other exception kinds are FastCodecs too and are sent as EXCEPTION payloads (e.g. the error a stream reader
 		// returned, forwarded to the peer)
@@ -606,7 +610,7 @@ func c12Run(c *mc.Ctx) {
 		{Kind: "transport-exception", S: [3]string{"not open"}, I: 1},
 		{Kind: "protocol-exception-with-cause", S: [3]string{"connection reset by peer"}, I: 0},
 	}
-	for _, method := range []string{"m", "method", c12Name(300)} {
+	for _, method := range []string{"m", "\xe9", "method", c12Name(300)} {
 		for _, t := range []int32{0, 1, 2, 3, 4, 65535, 0x10003} {
 			for _, s := range seqs {
 				for _, p := range pays {
@@ -624,7 +628,7 @@ func c12Run(c *mc.Ctx) {
 			}
 		}
 	}
-	c.Done("MarshalFastMsg -> UnmarshalFastMsg over 3 methods x 7 message types x 7 sequence ids x 7 payloads (+ EXCEPTION messages with unknown fields built by the reference)")
+	c.Done(fmt.Sprintf("MarshalFastMsg -> UnmarshalFastMsg over 4 methods (incl. a one-byte non-ASCII name) x 7 message types x %d sequence ids x %d payloads (+ EXCEPTION messages with unknown fields built by the reference)", len(seqs), len(pays)))
 }
 
 func init() {
